@@ -916,6 +916,8 @@ def run(ctx: Ctx) -> None:
 
 # ---------------------------------------------------------------------------
 WITNESSES = [
+    {"name": "seeded-C15-12", "file": "core/grammars/json_grammar.py", "old": "    def _rename_element(self, current_name: str, new_name: str) -> None:  # noqa: D102\n        self.__schema_builder.properties[new_name] = (\n            self.__schema_builder.properties.pop(current_name)\n        )\n        self.__init_dependencies()\n", "new": "    def _rename_element(self, current_name: str, new_name: str) -> None:  # noqa: D102\n        # Look for the properties only once: they are stored deeply.\n        properties = self.__schema_builder.properties\n        properties[new_name] = properties[current_name]\n        del properties[current_name]\n        self.__init_dependencies()\n", "expect": "15.11", "note": "JSONGrammar._rename_element assigns then deletes instead of popping: renaming an"},
+    {"name": "seeded-C15-11", "file": "core/grammars/json_grammar.py", "old": "    def _copy(self, grammar: Self) -> None:\n        # Updating is much faster than deep copying a schema builder.\n        grammar.__schema_builder.add_schema(self.__schema_builder, True)\n        grammar.__schema = self.__schema.copy()\n", "new": "    def _copy(self, grammar: Self) -> None:\n        # Updating is much faster than deep copying a schema builder,\n        # and the cached schema avoids serializing the schema builder again.\n        grammar.__schema_builder.add_schema(self.schema, True)\n        grammar.__schema = self.__schema.copy()\n", "expect": "15.8", "note": "JSONGrammar._copy feeds the copy's schema builder from the cached schema (with i"},
     {"name": "seeded-C15-10", "file": "core/grammars/json_schema.py", "old": "\n    def add_object(self, obj: StrKeyMapping) -> None:\n        with self.__handle_update():\n            super().add_object(obj)\n\n\n", "new": "\n\n", "expect": "15.9", "note": "genson object strategy no longer applies the update switch in add_object (remove"},
     {"name": "update-brings-the-defaults-of-the-excluded-names", "file": BG, "old": "k: v for k, v in grammar._defaults.items() if k not in excluded_names", "new": "k: v for k, v in grammar._defaults.items() if k in excluded_names", "expect": "15.2"},
     {"name": "update-requires-the-excluded-names", "file": BG, "old": "(grammar.keys() - excluded_names).intersection(", "new": "(grammar.keys() & set(excluded_names)).intersection(", "expect": "15.2"},
